@@ -309,7 +309,9 @@ FAILS = ['handler-raise-before-await', 'handler-raise-after-await', 'failed-futu
 
 def gen_failing(rng, tier):
     from .. import mixgen
+    from ..apps import EXC_KINDS
     cfg = mixgen.draw_config(rng)
+    cfg['exc_kind'] = rng.choice(EXC_KINDS)
     fail = rng.choice(FAILS)
     side = rng.choice('cs')
     s = {'iid': 1, 'side': side, 'start': mixgen.draw_wait(rng), 'req': (16, 0), 'failing': fail}
